@@ -45,6 +45,39 @@ RES_LOOP = ("        for shnum in e.get_shares_placed():\n"
 ENC_AWAIT = ("        verifycap = yield self._encoder.start()\n"
              "        results = self._encrypted_done(verifycap)\n")
 
+# the C05-I refactor of BaseUploadable (table loop + _encoding_param helper), done faithfully
+BU_IFS = ("        if \"k\" in default_params:\n"
+          "            self.default_encoding_param_k = default_params[\"k\"]\n"
+          "        if \"happy\" in default_params:\n"
+          "            self.default_encoding_param_happy = default_params[\"happy\"]\n"
+          "        if \"n\" in default_params:\n"
+          "            self.default_encoding_param_n = default_params[\"n\"]\n"
+          "        if \"max_segment_size\" in default_params:\n"
+          "            self.default_max_segment_size = default_params[\"max_segment_size\"]\n"
+          "        self.default_params_set = True\n")
+BU_LOOP = ("        for name in self._DEFAULTABLE_PARAMS:\n"
+           "            if name in default_params:\n"
+           "                attr = (\"default_max_segment_size\" if name == \"max_segment_size\"\n"
+           "                        else \"default_encoding_param_\" + name)\n"
+           "                setattr(self, attr, default_params[name])\n"
+           "        self.default_params_set = True\n"
+           "\n"
+           "    def _encoding_param(self, name):\n"
+           "        return (getattr(self, \"encoding_param_\" + name)\n"
+           "                or getattr(self, \"default_encoding_param_\" + name))\n")
+BU_TABLE = ("    encoding_param_n = None\n\n    _all_encoding_parameters = None\n",
+            "    encoding_param_n = None\n\n    _DEFAULTABLE_PARAMS = (\"k\", \"happy\", \"n\", \"max_segment_size\")\n\n"
+            "    _all_encoding_parameters = None\n")
+BU_READS = ("        k = self.encoding_param_k or self.default_encoding_param_k\n"
+            "        happy = self.encoding_param_happy or self.default_encoding_param_happy\n"
+            "        n = self.encoding_param_n or self.default_encoding_param_n\n")
+
+
+def bu_reads(k="k", happy="happy", n="n"):
+    return ("        k = self._encoding_param(%s)\n        happy = self._encoding_param(%s)\n"
+            "        n = self._encoding_param(%s)\n" % (k, happy, n))
+
+
 MUTANTS = [
     # ---- C06.1 success gate of server selection
     M("gate-compares-needed-shares", UP,
@@ -82,6 +115,30 @@ MUTANTS = [
     M("param-tuple-happy-is-k", UP,
       "            encoding_parameters = (k, happy, n, segsize)\n            self._all_encoding_parameters",
       "            encoding_parameters = (k, k, n, segsize)\n            self._all_encoding_parameters", "C06.2"),
+    # C05-I shape: the settings are read through a helper taking the constant name (getattr on a folded string)
+    M("benign-c05i-faithful-refactor-param-helper", UP, BU_IFS, BU_LOOP, None,
+      edits=[(UP, BU_TABLE[0], BU_TABLE[1]), (UP, BU_READS, bu_reads('"k"', '"happy"', '"n"'))]),
+    M("benign-c05i-helper-name-table", UP, BU_IFS,
+      BU_LOOP.replace('getattr(self, "encoding_param_" + name)', 'getattr(self, self._OVERRIDE_ATTR[name])'), None,
+      edits=[(UP, BU_TABLE[0], BU_TABLE[1].replace(
+                  "    _all_encoding_parameters", "    _OVERRIDE_ATTR = {\"k\": \"encoding_param_k\", "
+                  "\"happy\": \"encoding_param_happy\", \"n\": \"encoding_param_n\"}\n    _all_encoding_parameters")),
+             (UP, BU_READS, bu_reads('name="k"', 'name="happy"', 'name="n"'))]),
+    M("c05i-shape-happy-read-from-n", UP, BU_IFS, BU_LOOP, "C06.2",
+      edits=[(UP, BU_TABLE[0], BU_TABLE[1]), (UP, BU_READS, bu_reads('"k"', '"n"', '"n"'))]),
+    M("c05i-shape-helper-ignores-name", UP, BU_IFS,
+      BU_LOOP.replace('getattr(self, "encoding_param_" + name)', 'getattr(self, "encoding_param_k")')
+             .replace('getattr(self, "default_encoding_param_" + name)', 'getattr(self, "default_encoding_param_k")'),
+      "C06.2",
+      edits=[(UP, BU_TABLE[0], BU_TABLE[1]), (UP, BU_READS, bu_reads('"k"', '"happy"', '"n"'))]),
+    M("c05i-shape-default-of-k-for-happy", UP, BU_IFS,
+      BU_LOOP.replace('getattr(self, "default_encoding_param_" + name)',
+                      'getattr(self, "default_encoding_param_" + ("k" if name == "happy" else name))'),
+      "C06.2",
+      edits=[(UP, BU_TABLE[0], BU_TABLE[1]), (UP, BU_READS, bu_reads('"k"', '"happy"', '"n"'))]),
+    M("c05i-shape-opaque-name-argument", UP, BU_IFS, BU_LOOP, "ANALYSIS-ERROR",
+      edits=[(UP, BU_TABLE[0], BU_TABLE[1]),
+             (UP, BU_READS, bu_reads('"k"', 'self._status and "happy"', '"n"'))]),
     # ---- C06.3 failure aborts allocations
     M("failed-does-not-abort", UP,
       "        for tracker in self.use_trackers:\n            assert isinstance(tracker, ServerTracker)\n            tracker.abort()\n        raise UploadUnhappinessError(msg)",
